@@ -43,6 +43,10 @@ fn seq_enumeration<F: Fam>(spec: &CaseSpec, prop: &'static str) {
         with_acc(|a| { a.evaluations += 1; a.inconclusive("non-termination of the pooled diagram on a long-arc model (decided by C15 / C01)", light_case(spec, inst.as_ref())); });
         return;
     }
+    if reference.cutoff_fired {
+        with_acc(|a| { a.evaluations += 1; a.inconclusive("the uninterrupted reference run exhausted the step budget", light_case(spec, inst.as_ref())); });
+        return;
+    }
     if reference.lib_panic().is_some() || reference.completion.is_none() {
         with_acc(|a| { a.evaluations += 1; a.bump("reference_run_crashed_not_this_property", 1); });
         return;
@@ -164,7 +168,7 @@ pub fn run_c05(shard: &Shard) -> i32 {
     if let Some(path) = &shard.replay { return replay(path, PROP); }
     case_loop(shard, u64::MAX, |_i, rng| {
         if shard.idx % 2 == 0 {
-            let p = Profile { with_dominance: true, small: rng.chance(1, 6), depth_free_bias: rng.chance(1, 3), medium_share: if shard.quick() { 0 } else { 1 }, ..Default::default() };
+            let p = Profile { with_dominance: true, small: rng.chance(1, 6), depth_free_bias: rng.chance(1, 3), medium_share: if shard.quick() { 0 } else { 1 }, large_share: if shard.idx % 16 == 14 { 8 } else { 0 }, ..Default::default() };
             let spec = random_spec(rng, &p);
             with_family!(spec.family, seq_enumeration, &spec, PROP);
         } else {
@@ -186,7 +190,7 @@ pub fn run_c19(shard: &Shard) -> i32 {
     set_current(PROP, false);
     if let Some(path) = &shard.replay { return replay(path, PROP); }
     case_loop(shard, u64::MAX, |_i, rng| {
-        let p = Profile { with_dominance: true, small: rng.chance(1, 4), depth_free_bias: rng.chance(1, 3), medium_share: if shard.quick() { 0 } else { 1 }, ..Default::default() };
+        let p = Profile { with_dominance: true, small: rng.chance(1, 4), depth_free_bias: rng.chance(1, 3), medium_share: if shard.quick() { 0 } else { 1 }, large_share: if shard.idx % 16 == 14 { 8 } else { 0 }, ..Default::default() };
         let spec = random_spec(rng, &p);
         with_family!(spec.family, seq_enumeration, &spec, PROP);
         true
